@@ -34,6 +34,26 @@ Theorem C04_remove : forall c i q0 q,
   ++ tlc (skipn (S i) (cycles c)) q.
 Proof. exact remove_op_tl. Qed.
 
+(* insert_circuit with an index that resolves inside the circuit: the sub-circuit's
+   operations, relabelled through `location`, in the sub-circuit's own order, sit
+   between the cycles before the index and those from the index on.  (Before the
+   fix 9296dff this failed for negative indices; corpus/C04/D2_*.) *)
+Theorem C04_insert_circuit : forall c ci sub location q i,
+  nq sub = length location ->
+  insert_index c ci = Some i ->
+  (forall o c', In o (map (map_loc location) (riter_ops (cycles sub))) -> nq c' = nq c -> rads c' = rads c -> valid_op c' o = true) ->
+  let r := insert_circuit c ci sub location false in
+  snd r = OkU /\
+  tl (fst r) q = tlc (firstn i (cycles c)) q
+                 ++ filter (touches q) (rev (map (map_loc location) (riter_ops (cycles sub))))
+                 ++ tlc (skipn i (cycles c)) q.
+Proof. exact insert_circuit_tl. Qed.
+
+(* reverse iteration, reversed, is the forward timeline: the order in which
+   insert_circuit / get_inverse walk a circuit is each qudit's own order reversed *)
+Theorem C04_reverse_iteration : forall cs q, Forall amo cs -> filter (touches q) (rev (riter_ops cs)) = tlc cs q.
+Proof. exact rev_riter_timeline. Qed.
+
 (* compress is structure-only *)
 Theorem C04_compress_structure_only : forall c q, Forall amo (cycles c) -> tl (compress c) q = tl c q.
 Proof. exact compress_tl. Qed.
